@@ -122,7 +122,7 @@ def _traversal(ev, L, fam, fname, depth):
         raise _Bad("traversal nesting too deep", site)
     if L.kind == "while":
         raise _Bad("the source is consumed by a loop that is not a plain traversal (%s)" % site, site)
-    cls = iter_type_class(L.iter_ty) if L.kind == "for" else _term_class(ev, L.source)
+    cls = iter_type_class(L.iter_ty) if (L.kind == "for" and L.iter_ty) else _term_class(ev, L.source)
     if cls != "full":
         raise _Bad("traversal of the source at %s is not full-forward: %s" % (site, cls), site)
     if [n for n, _ in L.stages if n not in ("enumerate",)]:
